@@ -161,10 +161,6 @@ func verifHarness_C17_NaiveInputRoot() {
 	)
 	dirNames := []string{"a", "b", ".."}
 	fileNames := []string{"a", "c", ".."}
-	if rt.Tier() > 0 {
-		dirNames = []string{"a", "b", "c", ".."}
-		fileNames = dirNames
-	}
 	root := &remoteexecution.Directory{}
 	// Two subdirectory entries (possibly the same subtree under two names,
 	// possibly the same name twice), one or two files, one symlink.
